@@ -257,9 +257,10 @@ func directiveStringCases(add func(*Case)) {
 		"three-private-use": "a\U000F0001b\U00100002c\U0010FFFD", "max-code-points": "\U0010FFFF\U0010FFFE\U0010FFFF", "astral-printable-run": strings.Repeat("\U0001F600", 40),
 		"invalid-utf8": "a\xff\xfe\xc3(\xe2\x82", "lone-continuations": "\x80\x80\x80", "bmp-nonprintable": "\u200b\u200e\u2028\u2029\ufeff\ufffe",
 		"controls": "\x00\x01\x07\x08\x0b\x0c\x0e\x1b\x1f\x7f", "long-specials": strings.Repeat("<&>\"'\\/", 300), "long-word": strings.Repeat("x", 5000),
+		"multibyte-short": "aébc", "two-byte-run": "ééé", "three-byte-run": "日本語", "astral-between-ascii": "a\U0001F600b", "mixed-widths": "aé日\U0001F600z",
 		"combining-run": "e" + strings.Repeat("\u0301", 200), "crlf-run": strings.Repeat("\r\n", 100), "percent-run": strings.Repeat("%", 100) + "%zz%4",
 	}
-	argsOf := map[string][]string{"truncate": {"", ":3", ":3,false", ":0", ":-1"}, "insertWordBreaks": {":1", ":2", ":5"}}
+	argsOf := map[string][]string{"truncate": {"", ":1", ":2", ":3", ":4", ":5", ":1,false", ":2,false", ":3,false", ":4,false", ":0", ":-1"}, "insertWordBreaks": {":1", ":2", ":5"}}
 	for _, d := range names {
 		al := argsOf[d]
 		if al == nil {
